@@ -170,6 +170,12 @@ def run(ctx):
         ctx.count('queue-fault-sequences', len(fs))
         run_sequences(ctx, b, [s for s, _ in fs], W.env_token(), None, 'queue-faults', vocab=dict(W.VOCAB), msg=BIGMSG,
                       per_seq=[([v for _, v in faults], (lambda faults=faults: W.base_scenario(qq=[f for f, _ in faults]))) for _, faults in fs])
+        # submission port: MAIL FROM is refused (550) unless the client is authenticated or a relay client
+        rng = ctx.rng
+        sub = [['ehlo'] + list(tl) for tl in itertools.product(['mail', 'mail_bounce', 'rcpt_alice', 'data', 'rset', 'helo', 'noop'], repeat=3)]
+        sub += [[rng.choice(CORE) for _ in range(rng.randrange(3, 12))] for _ in range(200 if ctx.quick() else 3000)]
+        run_sequences(ctx, b, sub, W.env_token(port='587'), lambda: W.base_scenario(port='587'), 'submission-port')
+        run_sequences(ctx, b, sub[:400], W.env_token(relay='listed', port='587'), lambda: W.base_scenario(relay='listed', port='587'), 'submission-port-relay-client')
     if not ctx.quick():
         vlib.leanchecker(ctx, ['QsmtpModel.Props.C08'])
     return vlib.finish(ctx, assumptions=[
